@@ -3185,3 +3185,5 @@ def check(run, prog):
     rule_zero_matches(run, prog)             # R-5.12
     from .c05_ordering import rule_ordering_types
     rule_ordering_types(run, prog)           # R-5.13
+    from .c05_dispatch import rule_dispatch_arity
+    rule_dispatch_arity(run, prog)           # R-5.14
